@@ -450,8 +450,10 @@ type FuncContract struct {
 	Opts       map[string]string
 	Applies    []Expr // lemma applications assumed at entry (instantiated at explicit arguments)
 	// clauses about the state right after each Lock() of the function
-	AfterLockAssume []Clause // trusted assumptions (listed)
-	AfterLockApply  []Expr   // lemma applications
+	StoreAsserts    map[string][]Clause // field name -> assertions checked right after every store to that field
+	UnlockAsserts   []Clause            // proved at every Unlock() of the function (atlock() = state at the matching Lock())
+	AfterLockAssume []Clause            // trusted assumptions (listed)
+	AfterLockApply  []Expr              // lemma applications
 }
 
 type LockDecl struct {
@@ -480,7 +482,7 @@ func (db *ContractDB) allowPanic(fn string) bool {
 }
 
 var clauseKeywords = map[string]bool{
-	"assume_after_lock": true, "apply_after_lock": true, "opaque": true, "apply": true, "reveal": true, "guard": true, "lock": true, "lockorder": true, "pure": true, "lemma": true, "func": true, "props": true, "safety": true,
+	"assert_at_unlock": true, "assert_after_store": true, "assume_after_lock": true, "apply_after_lock": true, "opaque": true, "apply": true, "reveal": true, "guard": true, "lock": true, "lockorder": true, "pure": true, "lemma": true, "func": true, "props": true, "safety": true,
 	"requires": true, "ensures": true, "let": true, "assigns": true, "loop": true, "invariant": true,
 	"decreases": true, "allow_panic": true, "modular": true, "init_context": true, "entry": true, "option": true, "uses": true, "end": true,
 }
@@ -714,6 +716,26 @@ func (db *ContractDB) addClauses(pkg string, clauses []string, path string) erro
 				return fmt.Errorf("clause %q outside a func block", cl)
 			}
 			switch kw {
+			case "assert_at_unlock":
+				e, err := mustParse(rest)
+				if err != nil {
+					return err
+				}
+				cur.UnlockAsserts = append(cur.UnlockAsserts, Clause{Expr: e, Text: rest, Props: props})
+			case "assert_after_store":
+				// assert_after_store[Cxx] field expr
+				f := strings.SplitN(rest, " ", 2)
+				if len(f) != 2 {
+					return fmt.Errorf("bad assert_after_store %q", cl)
+				}
+				e, err := mustParse(strings.TrimSpace(f[1]))
+				if err != nil {
+					return err
+				}
+				if cur.StoreAsserts == nil {
+					cur.StoreAsserts = map[string][]Clause{}
+				}
+				cur.StoreAsserts[f[0]] = append(cur.StoreAsserts[f[0]], Clause{Expr: e, Text: strings.TrimSpace(f[1]), Props: props})
 			case "assume_after_lock":
 				e, err := mustParse(rest)
 				if err != nil {
